@@ -2,6 +2,8 @@
 document, run the real extractor, apply the pure oracles, return findings + a compact observation."""
 from __future__ import annotations
 
+import io
+
 from vlib import obs as O
 from vlib.gen import docs, expect as E
 from vlib.worker import arm_cpu
@@ -9,6 +11,40 @@ from vlib.worker import arm_cpu
 
 def work_init(init):
     import sharepoint2text  # noqa: F401  (pre-import so import cost is not charged to a case)
+
+
+def option_sequences(make) -> list[tuple[str, str]]:
+    """The documented options of get_full_text() / iterate_units() (boolean keyword parameters, found by introspection): for every
+    option, on one result object, the calls default -> set -> default and, on a second object, set -> default -> set.  Every call's full
+    text must equal the trimmed newline-join of the units *for the same option value*, and the same option value must give the same
+    text whatever was asked before."""
+    import inspect
+    out = []
+    try:
+        r0 = make()
+        opts = [p.name for p in inspect.signature(r0.get_full_text).parameters.values() if isinstance(p.default, bool)]
+        unit_opts = {p.name for p in inspect.signature(r0.iterate_units).parameters.values() if isinstance(p.default, bool)}
+    except Exception:
+        return out
+    for opt in opts:
+        for order in ((False, True, False), (True, False, True)):
+            r = make()
+            seen = {}
+            for val in order:
+                ft = r.get_full_text(**{opt: val})
+                if opt in unit_opts:
+                    joined = "\n".join(u.get_text() or "" for u in r.iterate_units(**{opt: val})).strip()
+                    if joined != ft:
+                        out.append(("option-join-inequality", f"get_full_text({opt}={val}) != trimmed newline-join of iterate_units({opt}={val}) after the calls {order[:order.index(val) + 1] if val not in seen else order}"))
+                if val in seen and seen[val] != ft:
+                    out.append(("full-text-depends-on-earlier-call", f"get_full_text({opt}={val}) gives another text after get_full_text({opt}={not val}) was called on the same object"))
+                seen[val] = ft
+            if len(set(seen.values())) > 1:
+                OPTION_EFFECTIVE.append(opt)
+    return out[:2]
+
+
+OPTION_EFFECTIVE: list = []
 
 
 def run_doc(fmt, seed, feature=None, twin=False, want=("c02", "c03", "c13", "c14")):
@@ -47,6 +83,10 @@ def run_doc(fmt, seed, feature=None, twin=False, want=("c02", "c03", "c13", "c14
     if "c03" in want:
         out["c03"] = E.check_units(exp, r["units"], r["full_text"])
         out["unit_numbers"] = [u.get("number") for u in r["units"]]
+        if exp.join_equality:
+            del OPTION_EFFECTIVE[:]
+            out["c03"] += option_sequences(lambda: next(iter(O.extractor(kind)(io.BytesIO(data), None))))
+            out["options_effective"] = sorted(set(OPTION_EFFECTIVE))
     if "c13" in want:
         out["c13"] = E.check_tables(exp, r["tables"])
     if "c14" in want:
